@@ -1,19 +1,22 @@
 #!/bin/bash
 # usage: tools/mutant.sh <patch.diff> <PROP> [check args...]
-# Applies the patch to /repo, verifies that it builds and that the repository's own tests pass,
-# runs the check (without rewriting evidence), and reverts the patch.
+# Applies the patch to a private copy of /repo, verifies that the copy builds and that the
+# repository's own tests pass, runs the check against the copy (without rewriting evidence),
+# and removes the copy. /repo itself is never touched.
 set -u
 patch=$(realpath "$1"); prop=$2; shift 2
-cd /repo || exit 2
-if [ -n "$(git status --porcelain)" ]; then echo "repo dirty"; exit 2; fi
-git apply "$patch" || { echo "patch does not apply"; exit 2; }
-trap 'git -C /repo checkout -- . ; git -C /repo clean -fdq' EXIT
+copy=$(mktemp -d /tmp/mutant-XXXXXX)
+trap 'rm -rf "$copy"' EXIT
+rsync -a --exclude .git /repo/ "$copy/"
+cd "$copy" || exit 2
+patch -p1 -s --no-backup-if-mismatch < "$patch" || { echo "MUTANT-INVALID: patch does not apply"; exit 3; }
+export GOFLAGS= GOPROXY=off GOTOOLCHAIN=local
 if [ -z "${SKIP_BASELINE:-}" ]; then
-  if ! (go build ./... && go test -count=1 -timeout 300s ./... >/tmp/mutant-baseline.log 2>&1); then
-    echo "MUTANT-INVALID: does not build or baseline tests fail"; tail -5 /tmp/mutant-baseline.log; exit 3
+  if ! (go build ./... && go test -count=1 -timeout 300s ./... >"$copy/.baseline.log" 2>&1); then
+    echo "MUTANT-INVALID: does not build or baseline tests fail"; tail -5 "$copy/.baseline.log"; exit 3
   fi
 fi
-cd /verif && ./check "$prop" --no-evidence "$@"
+cd /verif && VERIF_REPO="$copy" ./check "$prop" --no-evidence "$@"
 rc=$?
 echo "mutant $(basename $patch) on $prop: exit $rc"
 exit $rc
